@@ -19,6 +19,12 @@ type (
 func (r RestrictionList) GetRestrictionMap() RestrictionList { return r }
 
 func (r RestrictionList) AddRestriction(category, item string) {
+	// a restriction list is a set: an item listed twice must not be scanned twice
+	for _, have := range r[category] {
+		if have == item {
+			return
+		}
+	}
 	r[category] = append(r[category], item)
 }
 
